@@ -504,19 +504,8 @@ func addConsensusKind(sr bool) {
 			}
 			return "?"
 		},
-		ident: func(v any) string {
-			switch x := v.(type) {
-			case *consensus.Payload:
-				c := *x
-				return "hash=" + hx((&c).Hash())
-			case *consBytes:
-				e := payload.NewExtensible()
-				r := io.NewBinReaderFromBuf(x.Raw)
-				e.DecodeBinary(r)
-				return "hash=" + hx(e.Hash())
-			}
-			return ""
-		},
+		// No identity law: a consensus payload is identified by the hash of the Extensible it travels in, i.e. by
+		// the received Data bytes, which the node never re-encodes.
 	})
 }
 
